@@ -84,6 +84,7 @@ type lcBehaviour struct {
 	SleepMS      int      `json:"retention_sleep_ms"`
 	RetentionOff bool     `json:"retention_off"` // retention period 0 (scanner disabled): Start returns at once, Join must still return
 	Isolate      bool     `json:"isolate"`       // run in a child process; its death is recorded as an event
+	TimeoutMS    int      `json:"timeout_ms"`    // the servers' idle timeout (default 600 s, never reached)
 	TLS          bool     `json:"tls"`           // smtp: the listener is an SMTPS listener (ForceTLS); clients speak TLS and a hangup is a TCP reset
 }
 
@@ -281,8 +282,12 @@ func runLifecycleBehaviour(lg *lcLog, b lcBehaviour, scratch string) {
 		return
 	}
 	domain := lcDomain(b.ID)
-	root.SMTP.Addr, root.SMTP.Domain, root.SMTP.Timeout = "127.0.0.1:0", domain, 600*time.Second
-	root.POP3.Addr, root.POP3.Domain, root.POP3.Timeout = "127.0.0.1:0", domain, 600*time.Second
+	idleTimeout := 600 * time.Second
+	if b.TimeoutMS > 0 {
+		idleTimeout = time.Duration(b.TimeoutMS) * time.Millisecond
+	}
+	root.SMTP.Addr, root.SMTP.Domain, root.SMTP.Timeout = "127.0.0.1:0", domain, idleTimeout
+	root.POP3.Addr, root.POP3.Domain, root.POP3.Timeout = "127.0.0.1:0", domain, idleTimeout
 	sleep := 200 * time.Millisecond
 	if b.SleepMS > 0 {
 		sleep = time.Duration(b.SleepMS) * time.Millisecond
@@ -553,6 +558,43 @@ func runLifecycleBehaviour(lg *lcLog, b lcBehaviour, scratch string) {
 			}()
 			// give a return that is going to happen at once the time to be recorded before the next step begins
 			waitClosed(drainRet, 15*time.Millisecond)
+		case "idleout":
+			// every open client falls silent and keeps its connection: the server ends each session itself when its idle
+			// timeout (timeout_ms) expires.  "idleout" goes out before the wait, "idledone" says what each client then saw.
+			ids := []int{}
+			for id, c := range clients {
+				if !c.gone && c.ticket == nil {
+					ids = append(ids, id)
+				}
+			}
+			sort.Ints(ids)
+			ev["ss"] = ids
+			lg.emit(ev)
+			ev = map[string]interface{}{"a": "idledone", "t": b.ID, "i": i}
+			eofs, lines := []bool{}, []int{}
+			until := time.Now().Add(idleTimeout + 3*time.Second)
+			for _, id := range ids {
+				c := clients[id]
+				_ = c.conn.SetReadDeadline(until)
+				n := 0
+				ended := false
+				for {
+					line, err := c.br.ReadString('\n')
+					if len(line) > 0 {
+						n++
+					}
+					if err != nil {
+						ne, isNet := err.(net.Error)
+						ended = !(isNet && ne.Timeout())
+						break
+					}
+				}
+				eofs, lines = append(eofs, ended), append(lines, n)
+				c.conn.Close()
+				c.gone = true
+			}
+			ev["eof"], ev["lines"] = eofs, lines
+			ev["b"] = lg.tick()
 		case "plainconn":
 			// a client that does not speak TLS to the TLS listener (a scanner, a health probe): its handshake fails
 			conn, err := net.DialTimeout("tcp4", addr, time.Second)
